@@ -494,7 +494,13 @@ func classOf(b *qb, hdr string) string {
 				return "fastpath-cr"
 			}
 		}
-		if fastEligible(text) && (nbase > 1 || len(b.refs) > nbase) {
+		nfrom := 0
+		for _, t := range b.toks {
+			if t.k == 'w' && strings.EqualFold(t.s, "from") {
+				nfrom++
+			}
+		}
+		if fastEligible(text) && (nbase > 1 || len(b.refs) > nbase || nfrom > 1) {
 			return "fastpath-partial"
 		}
 		if b.feats["cte"] && !strings.Contains(stripped, "with ") {
